@@ -277,7 +277,7 @@ type c15case struct {
 }
 
 func c15run(r *report.Run) {
-	r.Rule("every digraph on n labelled packages (incl. self-imports up to n=4) x every root, executed by the real Load; plus location/file-split/poison-file configurations on small graphs; plus file selection: every set of <=2 files (and of 3 files over a reduced (thorough: the full) set of build lines) over 11 file names (a_test.go, b_test.go, test.go, latest.go, x_test.go.go, ...) x 13 //go:build lines (goat, !goat, ignore, linux, amd64 and combinations; for six of the names also preceded by a comment block and a blank line), as root and as dependency, the set of files that ran compared with the rule of the property; non-trivial = distinct (root, reachable subgraph, configuration) with at least one import edge")
+	r.Rule("every digraph on n labelled packages (incl. self-imports up to n=4) x every root, executed by the real Load; plus location/file-split/poison-file configurations on small graphs; plus file selection: every set of <=2 files (and of 3 files over a reduced (thorough: the full) set of build lines) over 13 file names (a_test.go, b_test.go, test.go, latest.go, x_test.go.go, _skip.go, .hid.go, ...) x 18 constraint lines (13 //go:build lines: goat, !goat, ignore, linux, amd64 and combinations; 5 legacy // +build lines; for six of the names also preceded by line comments and a blank line, for three also by a block comment of one or two lines), as root and as dependency, the set of files that ran compared with the rule of the property; non-trivial = distinct (root, reachable subgraph, configuration) with at least one import edge")
 	r.Assume("packages a<b<c<d<e only; graphs larger than the bound are not explored", "order of independent packages is not constrained (the property does not fix it)")
 	maxN, maxNself := 4, 4
 	cfgN := 2
@@ -465,13 +465,13 @@ func c15run(r *report.Run) {
 // and as a dependency of a root package.  Reference: a file belongs to the package iff its name does not end in
 // _test.go and its //go:build line (if any) is true when goat is the only tag set.
 
-var c15selNames = []string{"a.go", "a_test.go", "b_test.go", "c_test.go", "test.go", "latest.go", "contest.go", "z_test.go", "atest.go", "x_test.go.go", "test_a.go"}
-var c15selBuild = []string{"", "goat", "!goat", "ignore", "linux", "!linux", "amd64", "goat && linux", "goat || linux", "!goat || amd64", "goat && !linux", "!(goat && linux)", "goat && !ignore && !windows"}
+var c15selNames = []string{"a.go", "a_test.go", "b_test.go", "c_test.go", "test.go", "latest.go", "contest.go", "z_test.go", "atest.go", "x_test.go.go", "test_a.go", "_skip.go", ".hid.go"}
+var c15selBuild = []string{"", "goat", "!goat", "ignore", "linux", "!linux", "amd64", "goat && linux", "goat || linux", "!goat || amd64", "goat && !linux", "!(goat && linux)", "goat && !ignore && !windows", "+ignore", "+goat", "+!goat", "+linux goat", "+linux,goat"} // "+...": a legacy // +build line
 
 type c15selFile struct {
 	Name  int `json:"name"`
 	Build int `json:"build"`
-	Pre   int `json:"pre,omitempty"` // 1: a comment line and a blank line precede the //go:build line
+	Pre   int `json:"pre,omitempty"` // what precedes the constraint line: 1 line comments and a blank line, 2 a block comment, 3 a two-line block comment, a blank line and a line comment
 }
 
 type c15selCase struct {
@@ -479,14 +479,22 @@ type c15selCase struct {
 	AsDep bool         `json:"as_dep"`
 }
 
+// c15selHead is the constraint line of a build kind.
+func c15selHead(b int) string {
+	if strings.HasPrefix(c15selBuild[b], "+") {
+		return "// +build " + c15selBuild[b][1:]
+	}
+	return "//go:build " + c15selBuild[b]
+}
+
 func c15selIncluded(f c15selFile) bool {
-	if strings.HasSuffix(c15selNames[f.Name], "_test.go") {
+	if n := c15selNames[f.Name]; strings.HasSuffix(n, "_test.go") || strings.HasPrefix(n, "_") || strings.HasPrefix(n, ".") {
 		return false
 	}
 	if c15selBuild[f.Build] == "" {
 		return true
 	}
-	x, err := constraint.Parse("//go:build " + c15selBuild[f.Build])
+	x, err := constraint.Parse(c15selHead(f.Build))
 	if err != nil {
 		panic(err)
 	}
@@ -500,10 +508,15 @@ func c15selRun(c c15selCase) (problem, got string, files map[string]string) {
 		name := c15selNames[f.Name]
 		head := ""
 		if c15selBuild[f.Build] != "" {
-			head = "//go:build " + c15selBuild[f.Build] + "\n\n"
+			head = c15selHead(f.Build) + "\n\n"
 		}
-		if f.Pre == 1 {
+		switch f.Pre {
+		case 1:
 			head = "// Copyright (c) the authors.\n// All rights reserved.\n\n" + head
+		case 2:
+			head = "/* lic */\n" + head
+		case 3:
+			head = "/* Copyright (c) the authors.\n   All rights reserved. */\n\n// more\n" + head
 		}
 		files["s/"+name] = head + fmt.Sprintf("package s\n\nvar v%d = mark(\"var:%s\")\n\nfunc init() {\n\tmark(\"init:%s\")\n}\n", k, name, name)
 		if c15selIncluded(f) {
@@ -538,6 +551,9 @@ func c15selection(r *report.Run) {
 			all = append(all, c15selFile{Name: n, Build: b})
 			if n < 6 {
 				all = append(all, c15selFile{Name: n, Build: b, Pre: 1})
+			}
+			if n < 2 || n == 5 {
+				all = append(all, c15selFile{Name: n, Build: b, Pre: 2}, c15selFile{Name: n, Build: b, Pre: 3})
 			}
 		}
 	}
